@@ -44,7 +44,7 @@ STATES = ['running', 'finished', 'failed', 'initialising', 'suspended']
 
 def gen_case(seed, tier, index=0):
     rr = random.Random(seed)
-    writer = ['status', 'output', 'details', 'instance', 'instance-loop', 'manifest', 'dosini-instance'][index % 7]
+    writer = ['status', 'output', 'details', 'instance', 'instance-loop', 'manifest', 'dosini-instance', 'consolidate'][index % 8]
     n = rr.choice([1, 2, 3, 5, 8])
     ups = []
     for i in range(n):
@@ -70,10 +70,15 @@ def gen_case(seed, tier, index=0):
                         'value': rr.choice(['hello', 'x y z', '%(myvar)s-1', 'café'])})
         elif writer == 'dosini-instance':
             ups.append({'open': True})
+        elif writer == 'consolidate':
+            ups.append({'progress': round(rr.random(), 3), 'stage_state': rr.choice(STATES), 'exp_state': rr.choice(STATES)})
         else:
             ups.append({'iterate': True})
     if writer == 'dosini-instance':
         ups = ups[:rr.choice([1, 2])]
+    if writer == 'consolidate':
+        ups = ups[:rr.choice([1, 2, 3])]
+        ups[-1]['consolidate'] = True  # the run ends: the last update is followed by the move of the output directory
     if writer == 'instance-loop':
         ups = ups[:rr.choice([1, 2, 3])]
     return {'writer': writer, 'updates': ups, 'fs_seed': rr.getrandbits(32)}
@@ -450,7 +455,49 @@ class DosiniWorkload(Workload):
         return []
 
 
+class ConsolidateWorkload(Workload):
+    """the last update of a run: ExperimentInstanceDirectory.consolidate() moves the output directory (status.txt,
+    output.txt, ...), which lived in a shadow directory behind the symbolic link <instance>/output, into the instance"""
+
+    def setup(self, root):
+        from sim import runtime as R
+        import experiment.model.data as D
+        import experiment.model.storage as S
+        self.D, self.S = D, S
+        import datetime as _dt
+        D.datetime = _CounterClock(_dt)  # 'updated' / 'created-on' must be the same in every replay of the history
+        self.exp = R.build_experiment(LOOP_FLOWIR, root)
+        self.inst = self.exp.instanceDirectory.location
+        self.files = (os.path.join(self.inst, 'output', 'status.txt'),)
+        self.exp.statusFile.data['created-on'] = '2030-01-01 00:00:00'  # (wall-clock time of this replay otherwise)
+        self.n = 0
+
+    def apply(self, i, u):
+        st = self.exp.statusFile
+        st.setExperimentState(u.get('exp_state', 'finished'))
+        st.setStageState(u.get('stage_state', 'finished'))
+        st.setTotalProgress(u.get('progress', 1.0))
+        st.update()
+        if u.get('consolidate'):
+            self.exp.instanceDirectory.consolidate()
+
+    def reopen(self):
+        # what any later reader does first
+        self.S.ExperimentInstanceDirectory(self.inst)
+
+    def loads(self, path):
+        st = self.D.Status.statusFromFile(path)
+        if 'experiment-state' not in st.data:
+            raise ValueError('status without experiment-state')
+        return st.data
+
+    def fidelity(self):
+        return []
+
+
 def make_workload(writer):
+    if writer == 'consolidate':
+        return ConsolidateWorkload()
     if writer == 'dosini-instance':
         return DosiniWorkload()
     if writer == 'status':
@@ -634,6 +681,15 @@ def run_case(case, schedule, opts):
             fired_variants += 1
             count('fault.%s' % kind)
             count('probe.outcome.%s' % outcome.split(':')[0])
+            # (a reader opens the instance before it reads any state file: workloads may model that step)
+            if hasattr(target, 'reopen'):
+                fs.enabled = False
+                try:
+                    target.reopen()
+                except Exception as e:
+                    V('atomicity:%s:instance-cannot-be-opened-after-%s' % (writer, 'crash' if outcome == 'crashed' else 'io-error'),
+                      {'boundary': k, 'fault': kind, 'error': repr(e)[:300]})
+                fs.enabled = True
             # ---- oracle: every state file is the complete previous or the complete new version, and loads
             if reuse:
                 cur = snapshot(w.files)
